@@ -5,6 +5,9 @@ usage: mut.py PROP[,PROP] FILE OLD NEW [--count N]      (OLD must occur exactly 
 Prints checker output; scratch copy is removed afterwards."""
 import sys, os, subprocess, shutil, tempfile
 ENV = dict(os.environ, GOFLAGS="-mod=mod", GOPROXY="off", GOSUMDB="off", GOTOOLCHAIN="local")
+sys.path.insert(0, os.path.dirname(os.path.abspath(__file__)))
+from scratch import scratch_gocache
+ENV["GOCACHE"] = scratch_gocache(ENV)
 ENV.pop("GOWORK", None)
 def scratch():
     d = tempfile.mkdtemp(prefix="hv-scratch-")
@@ -17,7 +20,7 @@ def run(props, d, build=True):
         if r.returncode != 0:
             print("DOES NOT COMPILE:\n" + r.stdout + r.stderr); return 3
     for p in props.split(","):
-        r = subprocess.run(["/verif/bin/hclverif", "-property", p, "-repo", d, "-no-evidence"], capture_output=True, text=True)
+        r = subprocess.run(["/verif/bin/hclverif", "-property", p, "-repo", d, "-no-evidence"], capture_output=True, text=True, env=ENV)
         out = r.stdout.replace(d + "/", "")
         print(out.strip()); rc_all |= r.returncode
     return rc_all
